@@ -163,7 +163,7 @@ func c08Case(t *core.T, big bool) {
 	v, _ := sim.ViewOfChain(wd.N.BestChain())
 	owned := wd.AllOwned()
 	pend := 0
-	for _, o := range v.Outs {
+	for _, o := range v.SortedOuts() {
 		if pend >= 3 {
 			break
 		}
@@ -404,7 +404,7 @@ func c08Case(t *core.T, big bool) {
 			return
 		}
 		var spendable int64
-		for _, o := range v.Outs {
+		for _, o := range v.SortedOuts() {
 			if !o.Spent && o.HasHash && k.Owned[o.Hash] && o.Class == sim.ClassStd && v.Mature(o) {
 				spendable += o.Value
 			}
